@@ -5,8 +5,11 @@ package x509_test
 import (
 	"bytes"
 	"crypto/rand"
+
 	stdx509 "crypto/x509"
 	"fmt"
+	"github.com/google/certificate-transparency-go/internal/verifkit"
+	"github.com/google/certificate-transparency-go/x509"
 )
 
 type variant struct {
@@ -101,7 +104,7 @@ func reval(raw []byte, f func(val []byte) []byte) []byte {
 
 // variantsOf lists hand-made departures from the canonical form (some still canonical, some re-encoded by the fork,
 // some refused). The expectation is not written down here: what the fork does is compared with the model's domain.
-func variantsOf(p parts, r interface{ Intn(int) int }) []variant {
+func variantsOf(p parts, r *verifkit.Rand) []variant {
 	var vs []variant
 	add := func(name string, q parts) { vs = append(vs, variant{name, q.assemble()}) }
 	setVer := func(v []byte) parts {
@@ -132,7 +135,11 @@ func variantsOf(p parts, r interface{ Intn(int) int }) []variant {
 	add("ver-wrapper-too-long", setVer([]byte{0xa0, 5, 2, 1, 2, 5, 0}))
 	add("ver-wrapper-too-short", setVer([]byte{0xa0, 2, 2, 1, 2}))
 	add("ver-not-integer", setVer([]byte{0xa0, 3, 4, 1, 2}))
-	add("ver-twice", func() parts { q := setVer([]byte{0xa0, 3, 2, 1, 2}); q.pre = append([][]byte{{0xa0, 3, 2, 1, 2}}, q.pre...); return q }())
+	add("ver-twice", func() parts {
+		q := setVer([]byte{0xa0, 3, 2, 1, 2})
+		q.pre = append([][]byte{{0xa0, 3, 2, 1, 2}}, q.pre...)
+		return q
+	}())
 
 	setF := func(i int, b []byte) parts { q := p.clone(); q.setField(i, b); return q }
 	for _, s := range []struct {
@@ -225,8 +232,14 @@ func variantsOf(p parts, r interface{ Intn(int) int }) []variant {
 	add("uid-a1-constructed", withUIDs([]byte{0xa1, 2, 0, 9}))
 	add("uid-83", withUIDs([]byte{0x83, 2, 0, 9}))
 
-	if len(p.exts) > 0 {
-		k := r.Intn(len(p.exts))
+	var others []int // the extensions that are neither poison nor SCT list: the same ones, in the same order, in precert and final
+	for i, e := range p.exts {
+		if o := extOID(e); !bytes.Equal(o, oidPoison) && !bytes.Equal(o, oidSCT) {
+			others = append(others, i)
+		}
+	}
+	if len(others) > 0 {
+		k := others[r.Intn(len(others))]
 		e := p.exts[k]
 		_, ev, _, _, _ := readTLV(e)
 		efs, _ := splitAll(ev)
@@ -295,6 +308,103 @@ func variantsOf(p parts, r interface{ Intn(int) int }) []variant {
 	return vs
 }
 
+// accepted: does the real unmarshal (no trailing data) succeed, and what does unmarshal→marshal return?
+func accepted(tbs []byte) (out []byte, ok bool) {
+	verifkit.Guard(func() {
+		b, err := x509.VerifRemarshalTBS(tbs)
+		out, ok = b, err == nil
+	})
+	return
+}
+
+// routePair is the property's first clause as an oracle that needs no model and no canonical form: the SAME content (and the same
+// deviation from the canonical encoding, if any) once as precertificate `pre` (poison) and once as final certificate `fin` (SCT list),
+// `plain` = the same without either. For every input the fork accepts, both routes must succeed or fail together, return the same
+// bytes, and those are what unmarshal→marshal makes of `plain`; the leaf builders must agree as well.
+func (x *runner) routePair(label string, pre, fin, plain []byte, ca *authority) {
+	cp, cf := x.opCanon(pre), x.opCanon(fin)
+	a, errA := x.opBuild(pre, nil, cp)
+	b, errB := x.opRemove("sct", fin, cf)
+	_, accP := accepted(pre)
+	_, accF := accepted(fin)
+	want, accW := accepted(plain)
+	if accW {
+		x.out.T("remarshal "+h(plain), "ok "+h(want)) // what unmarshal→marshal makes of the content without poison / SCT list
+	} else {
+		x.out.T("remarshal "+h(plain), "err")
+	}
+	x.out.Count(fmt.Sprintf("class:pair-accepted=%v-canonical=%v", accP && accF, cp && cf))
+	key := label + " pre=" + h(pre) + " fin=" + h(fin)
+	if label == "damaged" {
+		// A byte change that lands in a length octet can move field boundaries, and then differently in the two inputs (the bytes that
+		// follow differ: poison vs SCT list). The oracle is about the SAME content on both sides, so for random damage it is applied only when
+		// the independent splicer still sees the same fields and the same other extensions in both inputs.
+		sp, okP := splitTBS(pre)
+		sf, okF := splitTBS(fin)
+		same := okP && okF && bytes.Equal(bytes.Join(sp.pre, nil), bytes.Join(sf.pre, nil)) && bytes.Equal(sp.tail, sf.tail) && sp.hasExts == sf.hasExts
+		if same {
+			var op, of [][]byte
+			for _, e := range sp.exts {
+				if !bytes.Equal(extOID(e), oidPoison) {
+					op = append(op, e)
+				}
+			}
+			for _, e := range sf.exts {
+				if !bytes.Equal(extOID(e), oidSCT) {
+					of = append(of, e)
+				}
+			}
+			same = bytes.Equal(bytes.Join(op, []byte{0xff}), bytes.Join(of, []byte{0xff})) && len(op) == len(sp.exts)-1 && len(of) == len(sf.exts)-1
+		}
+		if !same {
+			x.out.Count("class:pair-damaged-content-not-comparable")
+			return
+		}
+	}
+	if accP != accF {
+		x.out.Fail(key, fmt.Sprintf("the same deviation is accepted on one side only (precert %v, final %v)", accP, accF))
+		return
+	}
+	if !accP {
+		return
+	}
+	if (errA == nil) != (errB == nil) {
+		x.out.Fail(key, fmt.Sprintf("accepted input: one route fails (precert route %v, embedded route %v)", errA, errB))
+		return
+	}
+	if errA != nil {
+		return
+	}
+	if !bytes.Equal(a, b) {
+		x.out.Fail(key, "accepted input: routes differ: "+h(a)+" vs "+h(b))
+		return
+	}
+	if accW && !bytes.Equal(a, want) {
+		if q, ok := splitTBS(plain); !ok || q.hasExts || len(q.tail) > 0 { // without an extension field the result has `a3 02 30 00`, plain has nothing
+			x.out.Fail(key, "accepted input: the routes' result is not the re-marshalled certificate without poison / SCT list: "+h(a)+" vs "+h(want))
+		}
+	}
+	if cp && cf {
+		if d := removalDiff(pre, a, oidPoison); d != "" {
+			if _, splits := splitTBS(pre); splits {
+				x.out.Fail(key, "canonical input, but the removal changed something else: "+d)
+			}
+		}
+		return
+	}
+	// not canonical, yet accepted: the leaf builders over signed chains (when the repository's certificate parser takes them)
+	chP, chF := x.chainOf(pre, ca.sgn.key, ca.parsed), x.chainOf(fin, ca.sgn.key, ca.parsed)
+	if chP == nil || chF == nil {
+		x.out.Count("class:pair-noncanonical-not-a-certificate")
+		return
+	}
+	lp, lf := x.opLeafPre(pre, chP, cp), x.opLeafEmb(fin, chF, cf)
+	if lp == nil || lf == nil || !bytes.Equal(leafBytes(lp), leafBytes(lf)) || len(leafBytes(lp)) == 0 {
+		x.out.Fail(key, "accepted non-canonical input: leaf from precert chain and leaf for embedded SCT differ")
+	}
+	x.out.Count("class:pair-noncanonical-leaf-routes")
+}
+
 func (x *runner) variantCases(ca *authority) {
 	r := x.r
 	tm := rndTemplate(r, rndSerial(r))
@@ -307,50 +417,70 @@ func (x *runner) variantCases(ca *authority) {
 	if !ok {
 		return
 	}
-	p := base.insertExt(r.Intn(len(base.exts)+1), mkExt(oidPoison, true, []byte{5, 0}))
-	for _, v := range variantsOf(p, r) {
-		c := x.opCanon(v.tbs)
-		x.out.Count(fmt.Sprintf("variant:%s:canon=%s", v.name, map[bool]string{true: "1", false: "0"}[c]))
-		o, err := x.opBuild(v.tbs, nil, c)
-		if c && err == nil {
-			if d := removalDiff(v.tbs, o, oidPoison); d != "" {
-				if _, splits := splitTBS(v.tbs); splits {
-					x.out.Fail("variant "+v.name+" "+h(v.tbs), "canonical input, but the removal changed something else: "+d)
-				}
-			}
-		}
-		if c && err != nil {
-			if q, splits := splitTBS(v.tbs); splits && countExt(q.exts, oidPoison) == 1 {
-				x.out.Fail("variant "+v.name+" "+h(v.tbs), "canonical input with exactly one poison refused")
-			}
-		}
+	i, j := r.Intn(len(base.exts)+1), r.Intn(len(base.exts)+1)
+	sctVal, _ := sctListValue(rndSCTItems(r))
+	p := base.insertExt(i, mkExt(oidPoison, true, []byte{5, 0}))
+	f := base.insertExt(j, mkExt(oidSCT, false, sctVal))
+	w := base.withExts(base.exts)
+	// the same deviations, drawn from the same random stream, applied to precertificate, final certificate and the plain content
+	seed := r.U64()
+	vp, vf, vw := variantsOf(p, verifkit.NewRand(seed)), variantsOf(f, verifkit.NewRand(seed)), variantsOf(w, verifkit.NewRand(seed))
+	if len(vp) != len(vf) || len(vp) != len(vw) {
+		x.out.Fail("gen", "variant lists differ in length")
+		return
 	}
-	// random damage: single byte changes and truncations of the canonical TBS
-	can := p.assemble()
-	for i, n := 0, 60; i < n; i++ {
-		m := append([]byte(nil), can...)
-		switch r.Intn(10) {
+	for n := range vp {
+		if vp[n].name != vf[n].name || vp[n].name != vw[n].name {
+			x.out.Fail("gen", "variant lists differ: "+vp[n].name+" / "+vf[n].name)
+			return
+		}
+		c := isCanon(vp[n].tbs)
+		x.out.Count(fmt.Sprintf("variant:%s:canon=%s", vp[n].name, map[bool]string{true: "1", false: "0"}[c]))
+		x.routePair("variant "+vp[n].name, vp[n].tbs, vf[n].tbs, vw[n].tbs, ca)
+	}
+	// random damage: the same one- or two-byte change in the fields before the extensions, or inside one of the other extensions
+	cp, cf, cw := p.assemble(), f.assemble(), w.assemble()
+	preLen := len(bytes.Join(p.pre, nil))
+	start := func(tbs []byte) int { _, v, _, _, _ := readTLV(tbs); return len(tbs) - len(v) }
+	for n := 0; n < 60; n++ {
+		mp, mf, mw := append([]byte(nil), cp...), append([]byte(nil), cf...), append([]byte(nil), cw...)
+		flips := 1 + r.Intn(2)/1*0
+		if r.Intn(4) == 0 {
+			flips = 2
+		}
+		for q := 0; q < flips; q++ {
+			mask := byte(1 + r.Intn(255))
+			if len(base.exts) > 0 && r.Intn(3) == 0 {
+				e := base.exts[r.Intn(len(base.exts))]
+				pos := r.Intn(len(e))
+				for _, m := range [][]byte{mp, mf, mw} {
+					if at := bytes.Index(m, e); at >= 0 {
+						m[at+pos] ^= mask
+					}
+				}
+			} else {
+				pos := r.Intn(preLen)
+				mp[start(cp)+pos] ^= mask
+				mf[start(cf)+pos] ^= mask
+				mw[start(cw)+pos] ^= mask
+			}
+		}
+		x.out.Count(fmt.Sprintf("class:damaged-canon=%v", isCanon(mp)))
+		x.routePair("damaged", mp, mf, mw, ca)
+	}
+	// unpaired damage (truncation, deletion, anywhere): domain and result lines only
+	for n := 0; n < 20; n++ {
+		m := append([]byte(nil), cp...)
+		switch r.Intn(3) {
 		case 0:
 			m = m[:r.Intn(len(m))]
 		case 1:
 			pos := r.Intn(len(m))
 			m = append(m[:pos], m[pos+1:]...)
-		case 2, 3:
-			m[r.Intn(len(m))] ^= byte(1 + r.Intn(255))
-			m[r.Intn(len(m))] ^= byte(1 << r.Intn(8))
 		default:
 			m[r.Intn(len(m))] ^= byte(1 + r.Intn(255))
 		}
-		c := x.opCanon(m)
-		x.out.Count(fmt.Sprintf("class:damaged-canon=%v", c))
-		o, err := x.opBuild(m, nil, c)
-		if c && err == nil {
-			if _, splits := splitTBS(m); splits {
-				if d := removalDiff(m, o, oidPoison); d != "" {
-					x.out.Fail("damaged "+h(m), "canonical input, but the removal changed something else: "+d)
-				}
-			}
-		}
+		x.opBuild(m, nil, x.opCanon(m))
 	}
 }
 
@@ -386,7 +516,12 @@ func (x *runner) fuzzCases(ca *authority, n int) {
 		} else {
 			sb = append(sb, two(r.Intn(100))...)
 		}
-		mo := 1 + pick(11, 0, 13) - func() int { if r.Intn(9) == 0 { return 1 }; return 0 }()
+		mo := 1 + pick(11, 0, 13) - func() int {
+			if r.Intn(9) == 0 {
+				return 1
+			}
+			return 0
+		}()
 		if mo < 0 {
 			mo = 0
 		}
